@@ -320,6 +320,19 @@ theorem surface_card_split (flags ds mn params : List Char)
   split_surface_plain flags ds mn params hf hds hmn hp
 
 open T4V.CC in
+/-- **the letter case of a surface mnemonic is immaterial**: the card is cut at the same places whatever the case of
+the mnemonic, and the reader lower-cases the mnemonic it gets (`get_surfaces`: `t.strip().lower()`), so `PX`, `Px`
+and `px` are the same card -/
+theorem surface_mnemonic_case_immaterial (flags ds mn mn' params : List Char)
+    (hf : ∀ c ∈ flags, isFlag c = true) (hds : ds ≠ [] ∧ ∀ c ∈ ds, isDigit c = true)
+    (hmn : mn ≠ [] ∧ ∀ c ∈ mn, isMnChar c = true) (hmn' : mn' ≠ [] ∧ ∀ c ∈ mn', isMnChar c = true)
+    (hp : ∀ c r, params = c :: r → cws c = false) (h : mn.map lower = mn'.map lower) :
+    (splitSurface (flags ++ (ds ++ ' ' :: (mn ++ ' ' :: params)))).map (fun p => { p with mn := p.mn.map lower }) =
+    (splitSurface (flags ++ (ds ++ ' ' :: (mn' ++ ' ' :: params)))).map (fun p => { p with mn := p.mn.map lower }) := by
+  rw [split_surface_plain flags ds mn params hf hds hmn hp, split_surface_plain flags ds mn' params hf hds hmn' hp]
+  simp [h]
+
+open T4V.CC in
 /-- **a surface card with a transformation number** `[*+]n [±]t mnemonic parameters` -/
 theorem surface_card_split_tr (flags ds sg td mn params : List Char)
     (hf : ∀ c ∈ flags, isFlag c = true) (hds : ds ≠ [] ∧ ∀ c ∈ ds, isDigit c = true)
